@@ -2104,3 +2104,8 @@ V("C37-v2-request-bound-to-subject-repaired","C37",ICC,"""	currentTime := cp.cha
 
 	currentTime := cp.chainTime.Now().Round(time.Second)
 	if !tok.ValidAt(currentTime) {""",expect="silent",more=[{"file":ICC,"old":"// verifySessionV2 validates V2 session token for container operations.","new":"func signerOfVerificationScript(script []byte) (user.ID, error) {\n	pub, err := keys.NewPublicKeyFromBytes(script, elliptic.P256())\n	if err != nil {\n		return user.NewFromScriptHash(hash.Hash160(script)), nil\n	}\n	return user.NewFromECDSAPublicKey(ecdsa.PublicKey(*pub)), nil\n}\n\n// verifySessionV2 validates V2 session token for container operations."},{"file":ICC,"old":"import (\n","new":"import (\n	\"crypto/ecdsa\"\n	\"crypto/elliptic\"\n\n	\"github.com/nspcc-dev/neo-go/pkg/crypto/hash\"\n	\"github.com/nspcc-dev/neo-go/pkg/crypto/keys\"\n"}])
+V("C28-revert-fix-binary-recheck-without-request","C28","pkg/services/object/acl/acl.go","""		// the header was read for the request being processed
+		if req, ok := reqInfo.SrcRequest.(eaclV2.Request); ok {
+			hdrSrcOpts = append(hdrSrcOpts, eaclV2.WithRequestXHeaders(req))
+		}
+""","",rule="C28.R7")
